@@ -26,6 +26,9 @@ def run(ctx, out):
                               for k in range(n_ms)]
     K.check_ms(recs, out, KEEP, PROP, 'ms')
     recs_cl = [KNOWN_WITNESS] + [G.gen_record(rng, classes[k % len(classes)]) for k in range(n_cl)]
+    # every 4th record with a 2-3x finer water level series, outages and mostly an island of readings between two
+    # outages (stored data-interval numbers with a hole); own stream, the records are otherwise unchanged
+    recs_cl = G.fine_share(recs_cl, C.rng_for(seed, PROP, 'fine'))
     K.check_cl(recs_cl, out, KEEP, PROP, 'cl')
     out.rule = ('GS: random bipartite graphs (half with ties in the rises\' preferences) through '
                 'find_stable_matching, compared with the model under 3 schedules (strict) or with the set of all '
